@@ -80,16 +80,18 @@ impl Cfg {
 }
 
 /// Runs `f`, turning a panic into `Err(message)`.
+pub fn panic_message(e: Box<dyn std::any::Any + Send>) -> String {
+    if let Some(s) = e.downcast_ref::<&str>() {
+        s.to_string()
+    } else if let Some(s) = e.downcast_ref::<String>() {
+        s.clone()
+    } else {
+        "panic".to_string()
+    }
+}
+
 pub fn catch<T>(f: impl FnOnce() -> T + std::panic::UnwindSafe) -> Result<T, String> {
-    std::panic::catch_unwind(f).map_err(|e| {
-        if let Some(s) = e.downcast_ref::<&str>() {
-            s.to_string()
-        } else if let Some(s) = e.downcast_ref::<String>() {
-            s.clone()
-        } else {
-            "panic".to_string()
-        }
-    })
+    std::panic::catch_unwind(f).map_err(panic_message)
 }
 
 /// Coarse classification of a compiler error, used by C16.
